@@ -50,7 +50,7 @@ impl Property for C06 {
         40_000
     }
     fn random_cases(&self, tier: Tier) -> u64 {
-        tier.pick(60_000, 1_000_000)
+        tier.pick(800_000, 4_000_000)
     }
     fn run(&self, t: &mut Tape, ctx: &mut CaseCtx) -> Verdict {
         let which = t.weighted(&[4, 1, 1, 2]);
